@@ -1,104 +1,221 @@
 /-
-C15 — malformed stores are refused or processed, never crash.  On the current tree the code
-does not check every reference (known findings): the counterexamples below are kernel-evaluated
-on the model and replayed on the real code by the harness.  What holds is proved as
-`C15_checked_sites`, `C15_refused_iff`, `C06_cap` and `C15_no_panic_partial`.
+C15 — malformed stores are refused or processed, never crash.
+
+`validate` (after the repairs 86e7107, 41b3c28 to the code) checks the criteria table itself and
+every criteria reference that resolution or the import step evaluates.  The theorems below say:
+what an accepted store satisfies (`C15_checked_sites`), that each defect is refused
+(`C15_refused_*`), that the table check is sound and complete for `Mapper.new`
+(`C15_checkTable_sound/complete`), that an accepted store makes `resolve` return a report
+(`C15_no_panic_locked/unlocked`), and that whatever peers serve, importing into an accepted store
+returns a result or a refusal, and only yields defined local criteria (`C15_import_*`).
+The worlds of the former findings are kept as regression witnesses (`C15_fixed_*`).
 Property theorems only; helper lemmas live in Vet/Lemmas/Validate*.lean.
 -/
 import Vet.Lemmas.Validate
 import Vet.Lemmas.ValidateNoPanic
+import Vet.Lemmas.CheckTable
+import Vet.Lemmas.ImportsNoPanic
 namespace Vet
 
-/-- what `validate` guarantees when it accepts a store: every criteria reference in
-exemptions, policy, `implies`, local audits and local wildcard audits is defined -/
+/-- what `validate` guarantees when it accepts a store: the criteria table can be mapped and
+every criteria reference in exemptions, policy, `implies`, local audits, local wildcard audits,
+`trusted` entries and `criteria-map` targets — and, for a locked load, in imports.lock — is
+defined -/
 theorem C15_checked_sites (t : Table) (s : Store) (maxEnd : Nat) (locked : Bool)
-    (ci : List (Nat × List Nat)) (ln : List Nat) (h : validate t s maxEnd locked ci ln = []) :
+    (ci : List (Nat × List Nat)) (ln : List Nat) (mt : List (List Nat))
+    (h : validate t s maxEnd locked ci ln mt = []) :
+    checkTable t = true ∧
     (∀ e ∈ s.exemptions, ∀ x ∈ e.2, ∀ c ∈ x.criteria, c < t.n) ∧
     (∀ c ∈ t, ∀ i ∈ c.implies, i < t.n) ∧
     (∀ e ∈ s.locals.audits, ∀ a ∈ e.2, ∀ c ∈ a.criteria, c < t.n) ∧
     (∀ e ∈ s.locals.wildcards, ∀ a ∈ e.2, ∀ c ∈ a.criteria, c < t.n) ∧
     (∀ name ver e, s.policy.get name ver = some e →
       (∀ l, e.criteria = some l → ∀ c ∈ l, c < t.n) ∧ (∀ l, e.devCriteria = some l → ∀ c ∈ l, c < t.n) ∧
-      (∀ d ∈ e.depCriteria, ∀ c ∈ d.2, c < t.n)) := by
-  obtain ⟨hc, _, _⟩ := validate_nil_iff.1 h
-  obtain ⟨h1, h2, h3, h4, h5⟩ := invalidCriteriaCount_eq_zero hc
-  refine ⟨h1, h3, h4, h5, ?_⟩
-  intro name ver e hg
-  exact (policyEntryBad_eq_zero_iff t.n e).1 (policyBad_zero_get h2 hg)
+      (∀ d ∈ e.depCriteria, ∀ c ∈ d.2, c < t.n)) ∧
+    (∀ e ∈ s.trusted, ∀ x ∈ e.2, ∀ c ∈ x.criteria, c < t.n) ∧
+    (∀ l ∈ mt, ∀ c ∈ l, c < t.n) ∧
+    (locked = true → ∀ f ∈ s.imports, f.RefsValid t.n) := by
+  obtain ⟨hct, hc, _, _⟩ := validate_nil_iff.1 h
+  obtain ⟨h1, _, h3, h4, h5, h6, h7, h8⟩ := invalidCriteriaCount_eq_zero hc
+  exact ⟨hct, h1, h3, h4, h5, polOK_of_count hc, h6, h7, h8⟩
 
 /-- an undefined criterion at any checked site is refused -/
 theorem C15_refused_exemption (t : Table) (s : Store) (maxEnd : Nat) (locked : Bool)
-    (ci : List (Nat × List Nat)) (ln : List Nat)
+    (ci : List (Nat × List Nat)) (ln : List Nat) (mt : List (List Nat))
     (e : Nat × List Exemption) (he : e ∈ s.exemptions) (x : Exemption) (hx : x ∈ e.2)
     (c : Nat) (hc : c ∈ x.criteria) (hbad : t.n ≤ c) :
-    validate t s maxEnd locked ci ln ≠ [] := by
-  apply validate_ne_nil_of_count
-  have := nested_pos (fun x : Exemption => x.criteria) he hx hc hbad
-  unfold invalidCriteriaCount
-  simp only
+    ValidateError.invalidCriteria ∈ validate t s maxEnd locked ci ln mt := by
+  apply invalidCriteria_mem_of_count
+  have h1 := nested_pos (n := t.n) (fun x : Exemption => x.criteria) he hx hc hbad
+  have h2 := (invalidCriteriaCount_ge t s locked mt).1
   omega
 
 theorem C15_refused_audit (t : Table) (s : Store) (maxEnd : Nat) (locked : Bool)
-    (ci : List (Nat × List Nat)) (ln : List Nat)
+    (ci : List (Nat × List Nat)) (ln : List Nat) (mt : List (List Nat))
     (e : Nat × List Audit) (he : e ∈ s.locals.audits) (a : Audit) (ha : a ∈ e.2)
     (c : Nat) (hc : c ∈ a.criteria) (hbad : t.n ≤ c) :
-    validate t s maxEnd locked ci ln ≠ [] := by
-  apply validate_ne_nil_of_count
-  have := nested_pos (fun x : Audit => x.criteria) he ha hc hbad
-  unfold invalidCriteriaCount
-  simp only
+    ValidateError.invalidCriteria ∈ validate t s maxEnd locked ci ln mt := by
+  apply invalidCriteria_mem_of_count
+  have h1 := nested_pos (n := t.n) (fun x : Audit => x.criteria) he ha hc hbad
+  have h2 := (invalidCriteriaCount_ge t s locked mt).2.2.1
   omega
 
 theorem C15_refused_implies (t : Table) (s : Store) (maxEnd : Nat) (locked : Bool)
-    (ci : List (Nat × List Nat)) (ln : List Nat)
+    (ci : List (Nat × List Nat)) (ln : List Nat) (mt : List (List Nat))
     (cc : CustomCrit) (hcc : cc ∈ t) (i : Nat) (hi : i ∈ cc.implies) (hbad : t.n ≤ i) :
-    validate t s maxEnd locked ci ln ≠ [] := by
-  apply validate_ne_nil_of_count
-  have h1 := badRefs_pos hi hbad
-  have h2 := le_map_sum_of_mem (fun c : CustomCrit => badRefs t.n c.implies) hcc
-  unfold invalidCriteriaCount
-  simp only at h2 ⊢
+    ValidateError.invalidCriteria ∈ validate t s maxEnd locked ci ln mt := by
+  apply invalidCriteria_mem_of_count
+  have h0 := badRefs_pos hi hbad
+  have h1 := le_map_sum_of_mem (fun c : CustomCrit => badRefs t.n c.implies) hcc
+  have h2 := (invalidCriteriaCount_ge t s locked mt).2.1
   omega
+
+theorem C15_refused_trusted (t : Table) (s : Store) (maxEnd : Nat) (locked : Bool)
+    (ci : List (Nat × List Nat)) (ln : List Nat) (mt : List (List Nat))
+    (e : Nat × List Trusted) (he : e ∈ s.trusted) (x : Trusted) (hx : x ∈ e.2)
+    (c : Nat) (hc : c ∈ x.criteria) (hbad : t.n ≤ c) :
+    ValidateError.invalidCriteria ∈ validate t s maxEnd locked ci ln mt := by
+  apply invalidCriteria_mem_of_count
+  have h1 := nested_pos (n := t.n) (fun x : Trusted => x.criteria) he hx hc hbad
+  have h2 := (invalidCriteriaCount_ge t s locked mt).2.2.2.1
+  omega
+
+theorem C15_refused_map_target (t : Table) (s : Store) (maxEnd : Nat) (locked : Bool)
+    (ci : List (Nat × List Nat)) (ln : List Nat) (mt : List (List Nat))
+    (l : List Nat) (hl : l ∈ mt) (c : Nat) (hc : c ∈ l) (hbad : t.n ≤ c) :
+    ValidateError.invalidCriteria ∈ validate t s maxEnd locked ci ln mt := by
+  apply invalidCriteria_mem_of_count
+  have h0 := badRefs_pos hc hbad
+  have h1 := le_map_sum_of_mem (badRefs t.n) hl
+  have h2 := (invalidCriteriaCount_ge t s locked mt).2.2.2.2.1
+  omega
+
+/-- a locked load refuses an imports.lock that names an undefined criterion (audits) -/
+theorem C15_refused_lock_audit (t : Table) (s : Store) (maxEnd : Nat)
+    (ci : List (Nat × List Nat)) (ln : List Nat) (mt : List (List Nat))
+    (f : AFile) (hf : f ∈ s.imports) (e : Nat × List Audit) (he : e ∈ f.audits) (a : Audit) (ha : a ∈ e.2)
+    (c : Nat) (hc : c ∈ a.criteria) (hbad : t.n ≤ c) :
+    ValidateError.invalidCriteria ∈ validate t s maxEnd true ci ln mt := by
+  apply invalidCriteria_mem_of_count
+  have h0 := nested_pos (n := t.n) (fun x : Audit => x.criteria) he ha hc hbad
+  have h1 := le_map_sum_of_mem (afileBad t.n) hf
+  have h2 := (invalidCriteriaCount_ge t s true mt).2.2.2.2.2 rfl
+  have h3 := afileBad_ge t.n f
+  omega
+
+/-- … and wildcard audits -/
+theorem C15_refused_lock_wildcard (t : Table) (s : Store) (maxEnd : Nat)
+    (ci : List (Nat × List Nat)) (ln : List Nat) (mt : List (List Nat))
+    (f : AFile) (hf : f ∈ s.imports) (e : Nat × List Wildcard) (he : e ∈ f.wildcards) (a : Wildcard) (ha : a ∈ e.2)
+    (c : Nat) (hc : c ∈ a.criteria) (hbad : t.n ≤ c) :
+    ValidateError.invalidCriteria ∈ validate t s maxEnd true ci ln mt := by
+  apply invalidCriteria_mem_of_count
+  have h0 := nested_pos (n := t.n) (fun x : Wildcard => x.criteria) he ha hc hbad
+  have h1 := le_map_sum_of_mem (afileBad t.n) hf
+  have h2 := (invalidCriteriaCount_ge t s true mt).2.2.2.2.2 rfl
+  have h3 := afileBad_ge t.n f
+  omega
+
+/-- a criteria table that `check_criteria_table` rejects is refused -/
+theorem C15_refused_bad_table (t : Table) (s : Store) (maxEnd : Nat) (locked : Bool)
+    (ci : List (Nat × List Nat)) (ln : List Nat) (mt : List (List Nat)) (h : checkTable t = false) :
+    ValidateError.invalidCriteriaTable ∈ validate t s maxEnd locked ci ln mt := by
+  unfold validate
+  simp [h]
+
+/-- soundness of the table check (the depth-first search of `check_criteria_table`): a table it
+accepts, whose `implies` are all defined, is one `CriteriaMapper::new` processes without panic -/
+theorem C15_checkTable_sound (t : Table) (hwf : ∀ c ∈ t, ∀ i ∈ c.implies, i < t.n)
+    (h : checkTable t = true) : ∃ m, Mapper.new t = .ok m := by
+  exact checkTable_sound hwf h
+
+/-- completeness: the check never rejects a table `CriteriaMapper::new` can process (in
+particular the recursion fuel of the model's search is sufficient) -/
+theorem C15_checkTable_complete (t : Table) (m : Mapper) (h : Mapper.new t = .ok m) :
+    checkTable t = true := by
+  exact checkTable_complete h
 
 /-- C06: a project's own wildcard audits ending after `today + 12 months` are refused at load,
 and an accepted store has none -/
 theorem C06_cap (t : Table) (s : Store) (maxEnd : Nat) (locked : Bool)
-    (ci : List (Nat × List Nat)) (ln : List Nat) :
-    (validate t s maxEnd locked ci ln = [] →
+    (ci : List (Nat × List Nat)) (ln : List Nat) (mt : List (List Nat)) :
+    (validate t s maxEnd locked ci ln mt = [] →
       ∀ e ∈ s.locals.wildcards, ∀ w ∈ e.2, w.stop ≤ maxEnd) ∧
     (∀ e ∈ s.locals.wildcards, ∀ w ∈ e.2, maxEnd < w.stop →
-      ValidateError.badWildcardEndDate ∈ validate t s maxEnd locked ci ln) := by
+      ValidateError.badWildcardEndDate ∈ validate t s maxEnd locked ci ln mt) := by
   constructor
   · intro h
-    exact (lateWildcards_eq_zero_iff maxEnd s).1 (validate_nil_iff.1 h).2.1
+    exact (lateWildcards_eq_zero_iff maxEnd s).1 (validate_nil_iff.1 h).2.2.1
   · intro e he w hw hlate
-    have hpos : lateWildcards maxEnd s ≠ 0 := by
-      intro h0
-      have := (lateWildcards_eq_zero_iff maxEnd s).1 h0 e he w hw
-      omega
-    unfold validate
-    exact List.mem_append_left _ (List.mem_append_right _ (List.mem_replicate.2 ⟨hpos, rfl⟩))
+    apply lateWildcards_mem_of_pos
+    apply Nat.pos_of_ne_zero
+    intro h0
+    have := (lateWildcards_eq_zero_iff maxEnd s).1 h0 e he w hw
+    omega
 
 /-- C07 (locked mode): a lock that records audits or wildcard audits of a crate the
 configuration excludes, or whose import names differ from the configured ones, is refused -/
 theorem C07_locked_excluded_refused (t : Table) (s : Store) (maxEnd : Nat)
-    (ci : List (Nat × List Nat)) (ln : List Nat)
+    (ci : List (Nat × List Nat)) (ln : List Nat) (mt : List (List Nat))
     (hbad : importsLockOutdated ci ln s.imports = true) :
-    ValidateError.importsLockOutdated ∈ validate t s maxEnd true ci ln := by
+    ValidateError.importsLockOutdated ∈ validate t s maxEnd true ci ln mt := by
   unfold validate
-  apply List.mem_append_right
   simp [hbad]
 
-/-- No crash: if the criteria table is well formed and every criteria reference the resolver
-will evaluate is defined (what `validate` checks, plus trusted entries and imports.lock, which
-it does not), `resolve` returns a report — it never panics. -/
-theorem C15_no_panic_partial (w : World) (hwf : w.md.WF) (m : Mapper)
-    (hm : Mapper.new w.table = .ok m) (hv : AllRefsValid w.table w.store) :
-    ∃ r, resolve w = .ok r :=
-  resolve_ok_of_valid hwf hm hv
+/-- No crash, locked run (imports.lock is used as it is): a store that `validate` accepts makes
+`resolve` return a report — success, failure or violation conflict — never a panic. -/
+theorem C15_no_panic_locked (w : World) (hwf : w.md.WF) (maxEnd : Nat)
+    (ci : List (Nat × List Nat)) (ln : List Nat) (mt : List (List Nat))
+    (h : validate w.table w.store maxEnd true ci ln mt = []) :
+    ∃ r, resolve w = .ok r := by
+  obtain ⟨hct, hc, _, _⟩ := validate_nil_iff.1 h
+  obtain ⟨_, _, hwft, _, _, _, _, himp⟩ := invalidCriteriaCount_eq_zero hc
+  obtain ⟨m, hm⟩ := checkTable_sound hwft hct
+  have hb := invalidCriteriaCount_base_le w.table w.store true mt
+  exact resolve_ok_of_valid hwf hm ⟨by omega, himp rfl⟩
 
-/-! Known findings: unchecked sites.  Each world is accepted by `validate` and makes `resolve`
-(or the import step) panic. -/
+/-- No crash, unlocked run: `w.store.imports` are then the freshly imported files, which only
+name defined local criteria by `C15_import_refs_valid`. -/
+theorem C15_no_panic_unlocked (w : World) (hwf : w.md.WF) (maxEnd : Nat)
+    (ci : List (Nat × List Nat)) (ln : List Nat) (mt : List (List Nat))
+    (h : validate w.table w.store maxEnd false ci ln mt = [])
+    (hlive : ∀ f ∈ w.store.imports, f.RefsValid w.table.n) :
+    ∃ r, resolve w = .ok r := by
+  obtain ⟨hct, hc, _, _⟩ := validate_nil_iff.1 h
+  obtain ⟨_, _, hwft, _⟩ := invalidCriteriaCount_eq_zero hc
+  obtain ⟨m, hm⟩ := checkTable_sound hwft hct
+  have hb := invalidCriteriaCount_base_le w.table w.store false mt
+  exact resolve_ok_of_valid hwf hm ⟨by omega, hlive⟩
+
+/-- Whatever the peers serve, importing into an accepted store (whose `criteria-map` targets
+`validate` has checked) returns a file or a refusal naming the peer — never a panic. -/
+theorem C15_import_no_panic (t : Table) (s : Store) (maxEnd : Nat) (locked : Bool)
+    (ci : List (Nat × List Nat)) (ln : List Nat) (lm : Mapper) (hlm : Mapper.new t = .ok lm)
+    (cfg : ImportCfg)
+    (h : validate t s maxEnd locked ci ln (cfg.sources.flatMap (fun p => p.cmap.map (·.2))) = []) :
+    ∃ r, importOne lm cfg = .ok r := by
+  obtain ⟨_, hc, _, _⟩ := validate_nil_iff.1 h
+  obtain ⟨_, _, _, _, _, _, hmt, _⟩ := invalidCriteriaCount_eq_zero hc
+  have hn : lm.n = t.n := (new_ok hlm).2.2.2.1
+  apply importOne_ok lm cfg (by rw [hn]; unfold Table.n; omega)
+  intro p hp e he c hce
+  rw [hn]
+  exact hmt e.2 (List.mem_flatMap.2 ⟨p, hp, List.mem_map.2 ⟨e, he, rfl⟩⟩) c hce
+
+/-- … and what it yields only names defined local criteria -/
+theorem C15_import_refs_valid (t : Table) (lm : Mapper) (hlm : Mapper.new t = .ok lm)
+    (cfg : ImportCfg) (f : AFile) (h : importOne lm cfg = .ok (.ok f)) : f.RefsValid t.n := by
+  have hn : lm.n = t.n := (new_ok hlm).2.2.2.1
+  rw [← hn]
+  exact importOne_refsValid h
+
+/-- freshness marking against imports.lock does not touch criteria -/
+theorem C15_freshness_refs_valid (n : Nat) (live lock : AFile) (h : live.RefsValid n) :
+    (updateFreshness live lock).RefsValid n := by
+  exact updateFreshness_refsValid h
+
+/-! Regression witnesses: the worlds of the former findings.  Each was accepted by `validate`
+and made `resolve` (or the import step) panic; each is now refused. -/
 
 def resolveOutcome (w : World) : Option Panic :=
   match resolve w with
@@ -111,8 +228,8 @@ def c15Trusted : World :=
     store := { imports := [], locals := ⟨[], []⟩, trusted := [(1, [⟨7, 0, 100, [9]⟩])],
                publishers := [(1, [⟨0, 7, 5, false⟩])], unpublished := [], exemptions := [], policy := [] } }
 
-theorem C15_counterexample_trusted :
-    validate c15Trusted.table c15Trusted.store 1000 true [] [] = [] ∧
+theorem C15_fixed_trusted :
+    validate c15Trusted.table c15Trusted.store 1000 true [] [] [] = [.invalidCriteria] ∧
     resolveOutcome c15Trusted = some .unknownCriterion := by
   constructor <;> decide +kernel
 
@@ -122,8 +239,15 @@ def c15Lock : World :=
     store := { imports := [⟨[(1, [⟨.full 0, [9], true, false⟩])], []⟩], locals := ⟨[], []⟩, trusted := [],
                publishers := [], unpublished := [], exemptions := [], policy := [] } }
 
-theorem C15_counterexample_lock :
-    validate c15Lock.table c15Lock.store 1000 true [(0, [])] [0] = [] ∧
+theorem C15_fixed_lock :
+    validate c15Lock.table c15Lock.store 1000 true [(0, [])] [0] [] = [.invalidCriteria] ∧
+    resolveOutcome c15Lock = some .unknownCriterion := by
+  constructor <;> decide +kernel
+
+/-- the same lock is accepted by an unlocked load: there it is never evaluated, fresh imports
+replace it (hypothesis `hlive` of `C15_no_panic_unlocked` is necessary) -/
+theorem C15_unlocked_needs_live_imports :
+    validate c15Lock.table c15Lock.store 1000 false [(0, [])] [0] [] = [] ∧
     resolveOutcome c15Lock = some .unknownCriterion := by
   constructor <;> decide +kernel
 
@@ -133,25 +257,27 @@ def c15Cycle : World :=
     store := { imports := [], locals := ⟨[], []⟩, trusted := [], publishers := [], unpublished := [],
                exemptions := [], policy := [] } }
 
-theorem C15_counterexample_cycle :
-    validate c15Cycle.table c15Cycle.store 1000 true [] [] = [] ∧
+theorem C15_fixed_cycle :
+    validate c15Cycle.table c15Cycle.store 1000 true [] [] [] = [.invalidCriteriaTable] ∧
     resolveOutcome c15Cycle = some .impliesItself := by
   constructor <;> decide +kernel
 
 /-- built-in criterion redefined in the project's own table -/
-theorem C15_counterexample_builtin_redefined :
-    validate [⟨1, []⟩] c15Cycle.store 1000 true [] [] = [] ∧
+theorem C15_fixed_builtin_redefined :
+    validate [⟨1, []⟩] c15Cycle.store 1000 true [] [] [] = [.invalidCriteriaTable] ∧
     resolveOutcome { c15Cycle with table := [⟨1, []⟩] } = some .dupCriteria := by
   constructor <;> decide +kernel
 
-/-- F10: criteria-map target naming an undefined local criterion panics while importing -/
-theorem C15_counterexample_criteria_map :
+/-- F10: criteria-map target naming an undefined local criterion -/
+theorem C15_fixed_criteria_map :
+    validate [] c15Cycle.store 1000 false [] [] [[9]] = [.invalidCriteria] ∧
     importSource ⟨2, [1, 3]⟩ [] ⟨[⟨0, []⟩], [(0, 0)], [], [], [(2, [9])]⟩ = .error .unknownCriterion := by
-  decide +kernel
+  constructor <;> decide +kernel
 
-/-- F5 (peer variant): a peer serving a cyclic criteria table panics the importer -/
-theorem C15_counterexample_peer_cycle :
+/-- F5 (peer variant): a peer serving a cyclic criteria table is refused by the importer -/
+theorem C15_fixed_peer_cycle :
+    importOne ⟨2, [1, 3]⟩ ⟨[⟨[⟨0, [3]⟩, ⟨0, [2]⟩], [(0, 0), (1, 0)], [], [], []⟩], []⟩ = .ok .refused ∧
     importSource ⟨2, [1, 3]⟩ [] ⟨[⟨0, [3]⟩, ⟨0, [2]⟩], [(0, 0), (1, 0)], [], [], []⟩ = .error .impliesItself := by
-  decide +kernel
+  constructor <;> decide +kernel
 
 end Vet
